@@ -23,14 +23,14 @@ def Cmp.offset : Cmp → BitVec 32
 /-- `mod_lt(a, b)`: `a.wrapping_sub(b) > (1 << 31)` -/
 def modLt (a b : BitVec 32) : Bool := decide (a - b > 2147483648#32)
 
-/-- `mod_leq(a, b)`: `mod_lt(a, b.wrapping_add(1))` -/
-def modLeq (a b : BitVec 32) : Bool := modLt a (b + 1)
+/-- `mod_leq(a, b)`: `a == b || mod_lt(a, b)` -/
+def modLeq (a b : BitVec 32) : Bool := a == b || modLt a b
 
 /-- `mod_gt(a, b)`: `mod_lt(b, a)` -/
 def modGt (a b : BitVec 32) : Bool := modLt b a
 
-/-- `mod_geq(a, b)`: `mod_lt(b.wrapping_sub(1), a)` -/
-def modGeq (a b : BitVec 32) : Bool := modLt (b - 1) a
+/-- `mod_geq(a, b)`: `a == b || mod_gt(a, b)` -/
+def modGeq (a b : BitVec 32) : Bool := a == b || modGt a b
 
 /-- the `j || k || l` expression of `mod_bounded`: `b` strictly between `a` and `c` going
     around the circle from `a` -/
